@@ -20,6 +20,8 @@ def is_update_op(o):
         return True
     if o.op == "rename" and (o.path.startswith("$R1") or o.path2.startswith("$R0/src")):
         return True      # (the lock file's own rename is not "the new content of a file": C02/C16 govern the lock)
+    if o.cls == "w" and o.op in ("creat", "openw", "write") and o.path.startswith("$R0/src/"):
+        return True      # an implementation that writes the new content to the source path directly (e.g. a copy fallback)
     return False
 
 
@@ -93,6 +95,14 @@ def run(tier, v):
         v.subspace("%s: sticky faults" % sc.name, len(plans))
         if len(v.coverage["samples"]) < 4:
             v.sample({"scenario": sc.name, "update_ops": ["%d:%s %s" % (o.k, o.op, o.path) for o in base.trace if is_update_op(o)]})
+    # the temp directory on another file system as an environment (every rename out of TMPDIR fails with EXDEV), single faults on top
+    for n in ["S1", "S2"]:
+        sc = scenarios.ALL[n]()
+        sc.name += "+tmpdir-on-other-fs"
+        base, nx, capped = ex.explore(sc, {"fail", "short"}, 1, oracle, opt=opt, op_filter=lambda o, d, x: is_update_op(o),
+                                      base_plan=[(None, "sticky:rename:%d" % errno.EXDEV)])
+        v.subspace("%s: every rename out of TMPDIR fails with EXDEV + fail/short on every create / write / rename of new content" % sc.name, nx,
+                   exhaustive=not capped)
     # real cross-filesystem temp directory (no injection at all)
     disk = disk_scratch_dir("c08")
     import os
